@@ -82,7 +82,9 @@ def _run(V, work, tier):
                     V.add(None, "(time= t (parse-rfc3339-nano (format-rfc3339-nano t))) is %r for t = %s" % (p.get("again"), s["text"]), {"stamp": s["text"], "result": p})
                 if p.get("again_s") is not True:
                     V.add(None, "parse-rfc3339 of format-rfc3339 of %s is not within the same second" % s["text"], {"stamp": s["text"], "result": p})
-                if s["class"] == "accept" and key == "pn":
+                if not p.get("fmt") or not p.get("fmtn"):
+                    V.add(None, "a parsed timestamp cannot be formatted: %s (format-rfc3339 -> %r, -nano -> %r)" % (s["text"], p.get("fmt"), p.get("fmtn")), {"stamp": s["text"], "result": p})
+                elif s["class"] == "accept" and key == "pn":
                     reformatted.append((i, "fmtn", p.get("fmtn")))
                     reformatted.append((i, "fmt", p.get("fmt")))
     V.coverage["timestamps"] = dict(counts, total=len(stamps))
